@@ -1006,7 +1006,20 @@ def C19(tier, seed):
         C.log(f"[C19] {len(base)} histories with {sum(hits.values())} file-system effects ({ptnames}); {res['scenarios']} fault "
               f"runs (every effect index x bursts {bursts}) / {res['events']} events; judged by MonC19.tla in {res['wall_s']}s; "
               f"{len(allbads)} predicate failures; counters {res['counts']}")
-        viols, known = C.triage(pid, res["bads"], res["traces"], res["scen_files"])
+        def _facts_c19(begin, ev, sl, pred):
+            """a rotation whose rename succeeded and whose open failed (the writer goes on with the renamed file): an
+            injected fs:open failure in a call of a run that had written before"""
+            wrote = hit = False
+            for e_ in sl:
+                if e_.get("ev") in ("Start", "Stop"):
+                    wrote = False
+                if e_.get("ev") == "Log" and e_.get("ret") == "ok" and not e_.get("inj"):
+                    wrote = True
+                if wrote and "fs:open" in (e_.get("injp") or []):
+                    hit = True
+            return {"open_failed_in_rotation": hit}
+
+        viols, known = C.triage(pid, res["bads"], res["traces"], res["scen_files"], extra_facts=_facts_c19)
         v0, k0 = C.triage(pid, rec["bads"], rec["traces"], rec["scen_files"])
         viols += v0
         for fnd, cnt in known + k0:
